@@ -13,6 +13,13 @@ GENIMP = (" Second tie (regenerated on every run): translate/imp2coq.py translat
           "_impersonate_window, _impersonate_tcp, _impersonate_payload) from /repo's CURRENT source into the random-tape monad, draws in the source's evaluation order; "
           "coq/Gen/GenImpP.v proves them equal to the hand-written impersonation model for every tape, and coq/Gen/GenImpC.v restates the C05/C14 theorems for the "
           "translated code on parsed signatures.")
+GENSIG = (" Further tie (regenerated on every run): translate/sig2coq.py translates parse/utils.py, wildcard.py, signatures/tcp.py (TCPSignature.parse and its field "
+          "parsers) and signatures/mtu.py from /repo's CURRENT source; coq/Gen/GenSigP.v proves them equal to the model, GenSigC.v restates the range / round-trip theorems "
+          "for the translated code.")
+GENFILE = (" Further tie (regenerated on every run): translate/file2coq.py translates the line loop of _parse_file, _parse_section, the label classes, the record "
+           "classes' label / signature dispatch and RecordsDatabase.create / add from /repo's CURRENT source; coq/Gen/GenFileP.v proves that the translated loop body simulates "
+           "the model's step from every reachable state, GenFileC.v that the translated parser of a file TEXT equals the model's for every text and restates the file-level "
+           "theorems for it (HTTPSignature.parse is bound to the model's, named in the trusted base).")
 TIE = ("Tie to /repo: the hand-written Gallina model is extracted (ExtrOcamlBasic) and run against the working tree's pyp0f on "
        "boundary-directed generated cases plus exhaustive sweeps of the small sub-domains; every disagreement is a replayable "
        "failing input. Assurance = the weaker of proof and tie.")
@@ -80,24 +87,24 @@ CLAIMED = {
  "C09": dict(text="Coq theorems: after a successful load each section holds, in file order, exactly the sig lines a state-free scanner attributes to it "
                   "(line number, most recent label with sys, raw text, parsed signature), len(db) = number of sig lines, also with repeated section headers "
                   "(induction over lines); accepted TCP signatures lie in the documented ranges; layout / quirk / label texts denote what they say "
-                  "(printer-parser round trips). " + TIE + " The shipped p0f.fp is one of the cases.",
+                  "(printer-parser round trips). " + TIE + GENSIG + GENFILE + " The shipped p0f.fp is one of the cases.",
              note="Trusted: as C01; Python string primitives (split/partition/strip/int) are modelled for ASCII text and exercised by the correspondence; a full "
                   "print/parse round trip of whole TCP/HTTP signature texts is not proved (layout, quirks, labels, numbers are). No axioms.",
              tech="Coq proof (parser = scanner refinement by induction) + extracted-model differential correspondence on generated files", ref="DESIGN.md section 4 C09"),
  "C10": dict(text="Coq theorems: parse_file ends in a database or ParsingError(n) for EVERY line list (no other outcome constructor reachable: the partial "
                   "operations of the code are modelled as partial and proved safe); n is the 1-based number of the first offending line (the prefix parses, "
                   "that line fails); accepted tcp/mtu/http signatures are within the documented ranges, quirks legal for the version; skipped lines leave the "
-                  "state unchanged. " + TIE + " Single-fault corruptions, a per-field boundary catalogue and all short line-kind sequences are run.",
+                  "state unchanged. " + TIE + GENSIG + GENFILE + " Single-fault corruptions, a per-field boundary catalogue and all short line-kind sequences are run.",
              note="Trusted: as C09; an unreadable path is checked on the implementation only (open() is not modelled). No axioms.",
              tech="Coq proof (outcome classes, first-error line, range lemmas) + extracted-model differential correspondence on corrupted files", ref="DESIGN.md section 4 C10"),
  "C15": dict(text="Coq theorems: type:class:name:flavour with colon-free parts parses to its components and dumps back to the same text; sys does not "
                   "affect the text; lookup returns only records of the requested list whose dumped label equals the text exactly, can return every such "
-                  "record, DatabaseError when none / unloaded. " + TIE + " random.choice is driven over every candidate index; label-based impersonation "
+                  "record, DatabaseError when none / unloaded. " + TIE + GENFILE + " random.choice is driven over every candidate index; label-based impersonation "
                   "is checked to draw from that label's records of the packet's direction.",
              note="Trusted: as C09; random.choice replaced by an indexable stub. No axioms.",
              tech="Coq proof (label round trip, lookup soundness/completeness) + extracted-model differential correspondence", ref="DESIGN.md section 4 C15"),
  "C18": dict(text="Coq theorems: parse_layout (dump_layout l pad) = (l, pad if EOL present) for every layout over kinds 0..255 and padding 0..255; "
-                  "parse_quirks (dump_quirks q) = q for all 2^17 quirk sets legal for the version; int(str(n)) = n. " + TIE + GEN + " Real packets are dumped, "
+                  "parse_quirks (dump_quirks q) = q for all 2^17 quirk sets legal for the version; int(str(n)) = n. " + TIE + GEN + GENSIG + " Real packets are dumped, "
                   "parsed back and matched against themselves by the real code.",
              note="Trusted: as C09. 'A signature written from a packet matches it exactly' is checked on the implementation (and its ingredients are the C01/C03 "
                   "theorems) but not proved as one composed theorem. No axioms.",
@@ -161,7 +168,7 @@ def main():
                            "level_claimed": {"category": "proof", "text": c["text"], "design_ref": c["ref"]},
                            "level_note": c["note"], "technique": c["tech"]})
     m = {"version": 1,
-         "setup_cmd": "cd coq && coq_makefile -f _CoqProject -o Makefile && timeout 3000 make -j16 && cd ../ocaml && make && cd .. && /venv/bin/python -c \"from harness import core; print(core.gen_tie()['ok'], core.gen_tie_imp()['ok'], core.gen_tie_sig()['ok'])\"",
+         "setup_cmd": "cd coq && coq_makefile -f _CoqProject -o Makefile && timeout 3000 make -j16 && cd ../ocaml && make && cd .. && /venv/bin/python -c \"from harness import core; print(core.gen_tie()['ok'], core.gen_tie_imp()['ok'], core.gen_tie_sig()['ok'], core.gen_tie_file()['ok'])\"",
          "hooks": {"guard": "PYP0F_VERIF",
                    "enable": "no source hooks: harness/worker.py replaces time.time_ns / random.* / builtins.open before importing pyp0f; PYTHONPATH=/repo",
                    "baseline_off_cmd": "cd /repo && /venv/bin/python -m pytest -q -p no:cacheprovider --timeout=900",
